@@ -322,6 +322,8 @@ func c17Variant(to, debug, bare bool) string {
 func runC17(cases string, res *Result) {
 	c17UnreadableFile(cases, res)
 	c17ApplyAroundNothing(res)
+	c17DamagedCompiledFiles(cases, res)
+	c17MacroResultsKeptInVariables(res)
 	known := map[string]*Finding{}
 	knownSize := map[string]int{}
 	readCases(cases, func(c Case) {
